@@ -548,7 +548,8 @@ class ApplicationSetting:
         GROUP_SCAN = 0x03
 
     class GenericValue(hci.SpecableEnum):
-        pass
+        # An enum without members cannot be instantiated by value.
+        UNDEFINED = 0x00
 
 
 # -----------------------------------------------------------------------------
